@@ -137,10 +137,17 @@ RULE = ("cases = operation x operands: integers from word-count classes {0,1,2,3
         "serde_json) of UBig/IBig/FBig/Repr/RBig/Relaxed incl. zero, infinities, the base-36 'inf' number and its neighbours, "
         "sign/parity classes of the byte length; decoders fed with valid encodings, their mutations (truncated, extended, non-minimal "
         "varints, trailing zero bytes, zero denominator, zero significand with exponents 0,+-1,other, precision below the digit count, "
-        "10-byte varints) and random bytes / JSON tokens; the build's cfg values against the regenerated architecture chain. Every case "
+        "10-byte varints) and random bytes / JSON tokens; round 4: JSON strings with uXXXX escapes of either case, escaped slash, blanks around, "
+        "valid escapes of non-digits, invalid escapes, lone / paired surrogates, raw control bytes, non-ASCII and invalid UTF-8 bytes, trailing "
+        "characters, unterminated strings, and numbers / null / booleans / arrays / maps; gcd / gcd_ext / ilog / nth_root at the dispatch "
+        "boundaries of both word sizes (two-word operands, Word / DoubleWord second operand, 300-word operands for the double-word Lehmer guess, "
+        "Fibonacci-like operands, bases that are a Word in one build and a DoubleWord in the other, powers of the base +-1); division by a "
+        "prepared ConstDivisor whose top word has / has no leading zeros and residue rings with shift 0 whose operand lengths add up to the "
+        "modulus length (release-only code paths); float mul / add / sub / sqrt and base-2 -> f64/f32 with exponents at the ends of the isize "
+        "range; the build's cfg values against the regenerated architecture chain. Every case "
         "runs in all five builds; non-trivial = the oracle evaluated a specification on a non-degenerate input; distinct = distinct case texts.")
-EXPLANATION = ("Theorems in coq/props/C19.v (Serde/WireProofs, WordSizeKernels, WordSizeKernels2, WordRuns, EstimatorIndependence, JsonProofs, "
-               "ArchProofs). The oracle (oracle/driver_c19.ml) judges each build's answers against the extracted specifications; every `ok` "
+EXPLANATION = ("Theorems in coq/props/C19.v (Serde/WireProofs, WordSizeKernels, WordSizeKernels2, WordRuns, WordRuns2, EstimatorIndependence, JsonProofs, "
+               "JsonTokenProofs, SerdeGlueProofs, FloatBuilds, ExpRangeProofs, ArchProofs). The oracle (oracle/driver_c19.ml) judges each build's answers against the extracted specifications; every `ok` "
                "answer carries the word size of the build (wb=) and the oracle additionally runs the word-level as-is models at exactly that "
                "word size (asis=same|diff, path=<kernel class at that word size>); tools/check.py diffs the builds pairwise through "
                "canon_answer (wb=/len= tokens, log2 bounds and the build banner are canonicalised away, everything else must be identical text).")
@@ -151,6 +158,9 @@ TRUSTED_BASE = [
     "specifications and as-is models imported read-only from other properties: Int/BitsSpec, Int/IoSpec+IoModel, Int/GrlSpec, Float/Contract, Int/RingMulW+RingOpsW (C01), Int/DivSrcInst (C02), Int/BitsKernels (C09), Int/ModRingModel (C13), Int/GrlKsqrt (C12), Conv/ConvSpec+ConvModel (C06), Float/TextIoModel (C08), Float/ElemEncl+ElemEntry (C11)",
     "tools/translate_c19_r3.py: strict regex reader of integer/src/arch/{mod.rs,<dir>/mod.rs,<dir>/word.rs,generic/add.rs} -> coq/gen/ArchGen.v; the reading of cfg predicates as (key, value) alternatives, of cfg_if! as first match, of overflowing_add/sub and Word::from(bool) (Serde/ArchModel.v) is hand-written semantics; x86/x86_64 add.rs (core::arch intrinsics) are trusted",
     "cargo feature unification: the nostd configuration builds all four crates without default features (tools/core.py harness_dir)",
+    "tools/translate_c19_r4.py: regex reader of the three third_party/serde.rs files -> coq/gen/SerdeVisitorsGen.v; the reading of serde_json's deserialize_str (only a JSON string reaches the Visitor; serde_json 1.0.151 read.rs parse_str / parse_escape / parse_unicode_escape transcribed by hand into Serde/JsonTokenModel.v) and the rejection of bytes >= 0x80 are hand-written semantics of the medium",
+    "round 4 models imported read-only: Int/GrlModel + GrlLehmer + GrlKsqrt (C12: primitive gcd, Lehmer value level, Newton root, the three ilog loops), Float/LongModel (C03: digit-exact models with every Repr::new), Conv/ConvModel div_round_once (C06)",
+    "oracle/driver_c19.ml translates the exponents of the extreme-exponent float cases next to zero before evaluating the rounding contract (rounding to p digits commutes with scaling by powers of the base; operands of + / - further apart than p + both lengths + 16 digits are moved to that distance) and caps base-2 exponents at +-5000 for the f32/f64 conversions; the as-is models themselves are evaluated on the real exponents (they only add exponents)",
 ]
 ASSUMPTIONS = [
     "UBig::from_words / as_words / IBig::from_parts / as_sign_words transport values faithfully in every build (the harness moves values through raw words of the build's own word size)",
@@ -580,6 +590,22 @@ def gen_ring4(rng, tier):
         elif r == 1:
             a = m * ((1 << (unit * rng.choice([1, 2, lm]))) - 1) + (m - 1)     # quotient words all ones
         return "cdivrem %s %s" % (hx(a * rng.choice([1, 1, -1])), hx(m))
+    if lm >= 2 and rng.chance(1, 3):
+        # normalising shift 0, len(x) + len(y) = len(m) exactly and x * y >= m: the product is not divided but compared with the
+        # modulus and reduced by ONE conditional subtraction (mul_normalized / sqr_normalized)
+        m = (1 << (unit * lm - 1)) + rng.bits(unit * lm - 2) + 1
+        lx = rng.choice([lm // 2, 1, lm - 1]) if op != "modsqr" else lm // 2
+        lx = max(1, lx)
+        ly = lm - lx if op != "modsqr" else lx
+        hi = lambda l: ((1 << (unit * l)) - 1) - rng.bits(unit * l - 3 if unit * l > 3 else 1)   # top three bits set
+        x, y = hi(lx), hi(max(1, ly))
+        if op == "modsqr" and 2 * lx < lm:
+            m = (1 << (unit * 2 * lx - 1)) + rng.bits(unit * 2 * lx - 2) + 1
+        if op == "modmul":
+            return "modmul %s %s %s" % (hx(m), hx(x), hx(y))
+        if op == "modsqr":
+            return "modsqr %s %s" % (hx(m), hx(x))
+        return "modpow %s %s %s" % (hx(m), hx(x), hx(rng.choice([2, 3, 4, 5, 17])))
     # small residues: len(x) + len(y) <= len(m)
     lx = rng.choice([0, 1, 1, max(1, lm // 2), max(1, lm - 1), lm, lm + 2])
     ly = rng.choice([1, max(1, lm - lx), max(1, lm // 2), lm])
@@ -625,8 +651,12 @@ def gen_fx(rng, tier):
     e1, e2 = rng.choice(ends), rng.choice(ends)
     if op == "mul":
         if rng.chance(1, 3):
-            e2 = rng.choice([IMAX - e1, IMAX - e1 + 1, IMIN - e1, IMIN - e1 - 1, IMAX - e1 - 3])   # the sum at the very edge
+            e2 = rng.choice([IMAX - e1 - 64, IMAX - e1 + 1, IMIN - e1, IMIN - e1 - 1, IMAX - e1 - 70])   # the sum at the very edge
             e2 = max(IMIN, min(IMAX, e2))
+        if IMAX - 64 < e1 + e2 <= IMAX:
+            # the rounding and the normalisation still add up to 2p + 1 to the exponent: keep clear of the top so that the class
+            # of the open finding is decided by e1 + e2 alone
+            e2 -= 64
         return "fx mul %s %s %x %s %s %s %s" % (bt, mode, p, hx(s1), hx(e1), hx(s2), hx(e2))
     if op == "sqrt":
         s1 = abs(sig(rng.choice([1, p, 2 * p, 2 * p + 1, 3 * p + 2])))
